@@ -3,12 +3,14 @@ CONSTANTS
   Programs <- Family3
   QuerySeqs <- QS3
   Permute = TRUE
-  CheckOnTableHit = FALSE
-  RepairFalseResult = FALSE
+  CheckOnTableHit = TRUE
+  RepairFalseResult = TRUE
 VIEW view
 INVARIANT NoDanglingMessages
 INVARIANT NoError
 INVARIANT NegCycleOnlyWhenCyclic
 INVARIANT AnsweredOnlyWhenDefined
+INVARIANT StackEmpty
 INVARIANT TableSound
+INVARIANT ResultCorrect
 CHECK_DEADLOCK FALSE
